@@ -9,7 +9,9 @@
 (* P-level: Class / AnswerOK.  The statement leaves two corners open, which are classified       *)
 (* "either" (nothing or the carriers - but the same in every loading mode):                      *)
 (*   - a missing genotype next to a called one at a site that also has a multi-base allele;      *)
-(*   - an ignored conversion ref>alt whose alt no selected sample carries.                       *)
+(*   - an ignored conversion ref>alt whose alt no selected sample carries;                       *)
+(*   - a record that is not a pure SNV record (multi-base REF or some multi-base ALT) although   *)
+(*     every carried allele is a single base (e.g. the 1-base allele of a deletion).            *)
 (* D-level: StoreCode is the decision procedure of fetchChromosome (alleleTools.py:256-303) with *)
 (* its flags used/bad/monomorphic in the order of the code.                                      *)
 EXTENDS Integers, FiniteSets, Sequences, Util
@@ -26,6 +28,7 @@ Mono(site, sel)  == \E s \in SelSamples(site, sel) : Missing \in AllelesOf(site,
 Multi(site, sel) == \E s \in SelSamples(site, sel) : AllelesOf(site, s) \ (Bases \cup {Missing}) # {}
 IgnCalled(site, sel, ign) == \E b \in CalledBases(site, sel) : <<site.ref, b>> \in ign
 IgnAny(site, ign) == \E a \in SeqSet(site.alts) : <<site.ref, a>> \in ign
+NonSNVRecord(site) == site.ref \notin Bases \/ \E a \in SeqSet(site.alts) : a \notin Bases
 
 (* P-level classification of a site for a configuration *)
 Class(site, sel, ign) ==
@@ -33,7 +36,7 @@ Class(site, sel, ign) ==
     IF cb = {} THEN "drop"                                                     \* nobody selected carries a single base
     ELSE IF ~Mono(site, sel) /\ (Multi(site, sel) \/ Cardinality(cb) < 2) THEN "drop"   \* not a SNV site / uninformative
     ELSE IF IgnCalled(site, sel, ign) THEN "drop"                              \* involves an ignored conversion
-    ELSE IF (Mono(site, sel) /\ Multi(site, sel)) \/ IgnAny(site, ign) THEN "either"
+    ELSE IF (Mono(site, sel) /\ Multi(site, sel)) \/ IgnAny(site, ign) \/ NonSNVRecord(site) THEN "either"
     ELSE "store"
 
 (* is `ans` (set of samples, {} = None) an admissible answer of getAllelesAt(.., b) at this site? *)
